@@ -426,8 +426,11 @@ impl<T: GseDecapMemory, C: CrcCalculator, MHEM: MandatoryHeaderExtensionManager>
         let pdu_buffer_len = pdu_buffer.len();
         if pdu_buffer_len + label_len + header_ext_len + PROTOCOL_LEN < gse_len {
             self.last_label = None;
-            self.memory.provision_storage(pdu_buffer).unwrap();
-            return Err((DecapError::ErrorSizePduBuffer, pkt_len));
+            return match self.memory.provision_storage(pdu_buffer) {
+                Ok(()) => Err((DecapError::ErrorSizePduBuffer, pkt_len)),
+                // the memory refuses the buffer: hand it to the caller
+                Err(err) => Err((DecapError::ErrorMemory(err), pkt_len)),
+            };
         }
         let calculed_pdu_len = gse_len - label_len - header_ext_len - PROTOCOL_LEN;
 
@@ -680,8 +683,11 @@ impl<T: GseDecapMemory, C: CrcCalculator, MHEM: MandatoryHeaderExtensionManager>
         let pdu_buffer_len = pdu_buffer.len();
         if pdu_buffer_len < calculed_pdu_len {
             self.last_label = None;
-            self.memory.provision_storage(pdu_buffer).unwrap();
-            return Err((DecapError::ErrorSizePduBuffer, pkt_len));
+            return match self.memory.provision_storage(pdu_buffer) {
+                Ok(()) => Err((DecapError::ErrorSizePduBuffer, pkt_len)),
+                // the memory refuses the buffer: hand it to the caller
+                Err(err) => Err((DecapError::ErrorMemory(err), pkt_len)),
+            };
         }
 
         // read pdu
@@ -730,8 +736,11 @@ impl<T: GseDecapMemory, C: CrcCalculator, MHEM: MandatoryHeaderExtensionManager>
         let pdu_buffer_len = pdu_buffer.len();
 
         if pdu_buffer_len < calculed_pdu_len {
-            self.memory.provision_storage(pdu).unwrap();
-            return Err((DecapError::ErrorSizePduBuffer, pkt_len));
+            return match self.memory.provision_storage(pdu) {
+                Ok(()) => Err((DecapError::ErrorSizePduBuffer, pkt_len)),
+                // the memory refuses the buffer: hand it to the caller
+                Err(err) => Err((DecapError::ErrorMemory(err), pkt_len)),
+            };
         }
         pdu_buffer[..calculed_pdu_len].copy_from_slice(&buffer[offset..offset + calculed_pdu_len]);
 
@@ -780,8 +789,11 @@ impl<T: GseDecapMemory, C: CrcCalculator, MHEM: MandatoryHeaderExtensionManager>
         let pdu_buffer_len = pdu_buffer.len();
 
         if pdu_buffer_len < calculed_pdu_len {
-            self.memory.provision_storage(pdu).unwrap();
-            return Err((DecapError::ErrorSizePduBuffer, pkt_len));
+            return match self.memory.provision_storage(pdu) {
+                Ok(()) => Err((DecapError::ErrorSizePduBuffer, pkt_len)),
+                // the memory refuses the buffer: hand it to the caller
+                Err(err) => Err((DecapError::ErrorMemory(err), pkt_len)),
+            };
         }
 
         pdu_buffer[..calculed_pdu_len].copy_from_slice(&buffer[offset..offset + calculed_pdu_len]);
@@ -809,8 +821,11 @@ impl<T: GseDecapMemory, C: CrcCalculator, MHEM: MandatoryHeaderExtensionManager>
 
         let total_len_received = (pdu_len + PROTOCOL_LEN + first_label_len) as u16;
         if decap_context.total_len != total_len_received {
-            self.memory.provision_storage(pdu).unwrap();
-            return Err((DecapError::ErrorTotalLength, pkt_len));
+            return match self.memory.provision_storage(pdu) {
+                Ok(()) => Err((DecapError::ErrorTotalLength, pkt_len)),
+                // the memory refuses the buffer: hand it to the caller
+                Err(err) => Err((DecapError::ErrorMemory(err), pkt_len)),
+            };
         }
 
         let calculted_crc = self.crc_calculator.calculate_crc32(
@@ -821,8 +836,11 @@ impl<T: GseDecapMemory, C: CrcCalculator, MHEM: MandatoryHeaderExtensionManager>
         );
 
         if calculted_crc != received_crc {
-            self.memory.provision_storage(pdu).unwrap();
-            return Err((DecapError::ErrorCrc, pkt_len));
+            return match self.memory.provision_storage(pdu) {
+                Ok(()) => Err((DecapError::ErrorCrc, pkt_len)),
+                // the memory refuses the buffer: hand it to the caller
+                Err(err) => Err((DecapError::ErrorMemory(err), pkt_len)),
+            };
         }
 
         Ok((DecapStatus::CompletedPkt(pdu, metadata), pkt_len))
